@@ -25,8 +25,9 @@ META = {
 }
 
 URIS = ('urn:a', 'urn:b', trees.NS_XHTML, trees.NS_SVG)
-DOC_PREFIXES = ('p', 'q', 'svg', 'h')
-MAP_PREFIXES = ('p', 'q', 'svg', 'x', 'P')
+# 'html' is also the prefix soupsieve's internal HTML-only selector lists use: a caller or document binding of it must not leak into them
+DOC_PREFIXES = ('p', 'q', 'svg', 'h', 'html')
+MAP_PREFIXES = ('p', 'q', 'svg', 'x', 'P', 'html')
 NAMES = ('a', 'b', 'c')
 ATTRS = ('k', 'href', 'lang')
 
